@@ -1,5 +1,6 @@
 import Feox.Cache.Model
 import Feox.Kv.Tiers
+import Feox.Kv.TtlCarry
 /-!
 # C16 — the read cache's accounting is exact and a hit is only ever for the right generation
 
@@ -431,5 +432,25 @@ theorem cached_value_is_current (l : List Feox.Kv.Tiers.Step) (hr : Feox.Kv.Tier
     (g : Feox.Kv.Tiers.Gen) (hg : (Feox.Kv.Tiers.runFrom Feox.Kv.Tiers.init l).index e.key = some g) (ht : g.id = e.tag) :
     e.val = g.val :=
   (Feox.Kv.Tiers.run_inv l _ Feox.Kv.Tiers.inv_init hr).cache e he g hg ht
+
+/-! ### a TTL change is never masked by a stale entry -/
+
+/-- **`update_ttl` carries the value over whatever the cache holds** — entries of the current
+generation, entries of generations long gone (late fills by readers that raced with a
+replacement), nothing at all: after any history of writes, deletes, timely and late cache fills,
+evictions and TTL changes the key reads what its last write stored (`Kv.TtlCarry`: the slot is
+picked by exact generation) -/
+theorem ttl_change_carries_the_value {s t : Kv.TtlCarry.St} {es : List Kv.TtlCarry.Ev}
+    (hr : Kv.TtlCarry.Run s es t) (h : Kv.TtlCarry.Inv s) :
+    Kv.TtlCarry.value t = es.foldl Kv.TtlCarry.specStep (Kv.TtlCarry.value s) :=
+  (Kv.TtlCarry.run_value hr h).2
+
+/-- picking "any slot the new generation may take over" instead (seeded change C16-5): a late fill
+of the first generation, then a TTL change — and the replaced value is back -/
+theorem loose_pick_resurrects :
+    let evs : List Kv.TtlCarry.Ev := [.put 7, .put 9, .lateFill 0 7, .ttlUpdate]
+    Kv.TtlCarry.value (evs.foldl (Kv.TtlCarry.step .loose) {}) = some 7 ∧ evs.foldl Kv.TtlCarry.specStep none = some 9 ∧
+    Kv.TtlCarry.value (evs.foldl (Kv.TtlCarry.step .exact) {}) = some 9 :=
+  Kv.TtlCarry.loose_pick_resurrects
 
 end Feox.C16
